@@ -58,7 +58,7 @@ impl Args {
             ex_groups: 0,
             cap_ms: 0,
             mem_cap: 8 << 30,
-            steps: 100_000,
+            steps: 150_000,
             selftest_seeds: 0,
             role: String::new(),
             mask_tid: false,
